@@ -147,8 +147,10 @@ func (p *Prog) Matches(c *ssa.CallCommon, spec Callee) bool {
 		// the static interface type of the receiver embeds / is a superset of the wanted
 		// interface, or the method object is the very method declared by the wanted interface
 		if wi, ok := want.Underlying().(*types.Interface); ok {
-			for i := 0; i < wi.NumMethods(); i++ {
-				if wi.Method(i) == c.Method {
+			// the very method declared by the wanted interface (not one it merely embeds,
+			// such as io.Closer.Close, which unrelated interfaces share)
+			for i := 0; i < wi.NumExplicitMethods(); i++ {
+				if wi.ExplicitMethod(i) == c.Method {
 					return true
 				}
 			}
